@@ -683,6 +683,14 @@ def flag(run, P, rule):
                                                           if shared else ""),
                why="a flag name assigned once in each of two phases is no double assignment: "
                    "counted over the whole method a well-formed method is refused")
+    leaves = [x for x in ast.walk(f.node) if isinstance(x, (ast.Break, ast.Return))
+              and any(isinstance(l_, (ast.For, ast.While)) and any(y is x for y in ast.walk(l_))
+                      for l_ in ast.walk(f.node))]
+    run.ob(rule, f, leaves[0] if leaves else f.node, not leaves,
+           construct="the walk over statements and their written variables is never left early "
+                     "(no break / return inside the loops)",
+           why="a statement that also writes something that is no flag ends the walk before its "
+               "flag is counted: a flag assigned twice goes unreported")
     run.ob(rule, f, site, coll_ok and n_sites >= 2,
            construct="writers are collected per flag as a list of statements",
            why="collecting printed texts or a set merges distinct statements that "
